@@ -98,3 +98,20 @@ package config
 //@   ensures [C08:enabled_forward_auth_has_a_positive_timeout] result.Enabled ==> in != nil && result.Timeout > 0
 //@   ensures [C08:undeclared_forward_auth_is_off] in == nil ==> !result.Enabled
 //@   ensures [errors_only_grow] len(res.Errors) >= old(len(res.Errors))
+
+// ---- C16: no configured egress rule is lost on the way into the compiled policy ----
+// every configured allow/deny value either becomes a rule of the compiled list or produces a compile error; the
+// compiled rules are, in order, exactly the parses of the values that parsed (a dropped deny rule would let a
+// delivery through that the operator's configuration forbids)
+//@ spec
+//@ ufunc egressRuleHostOf(v string) string
+//@ ufunc egressRuleSubOf(v string) bool
+//@ ufunc egressRuleIsCIDROf(v string) bool
+//@ func parseEgressRule
+//@   trusted
+//@   ensures result1 ==> result0.Host == egressRuleHostOf(raw) && result0.Subdomains == egressRuleSubOf(raw) && result0.IsCIDR == egressRuleIsCIDROf(raw)
+//@ func compileEgressRules
+//@   requires res != nil
+//@   modifies res.OK, res.Errors, res.Warnings
+//@   loop 1 invariant [every_value_so_far_became_a_rule_or_an_error] rangeindex < len(values) && len(out) + (len(res.Errors) - old(len(res.Errors))) >= rangeindex + 1 && len(out) <= rangeindex + 1
+//@   ensures [C16:no_configured_rule_is_dropped_silently] len(result) + (len(res.Errors) - old(len(res.Errors))) >= len(values)
